@@ -107,9 +107,11 @@ func (r *ChunkReader) ReadChunk(size uint16) (*KV, error) {
 		}
 		r.r = nextReader
 
-		// Limit the max bytes read for the key to size minus 7 (min overhead,
-		// see note below)
-		keyReader := io.LimitReader(r.r, int64(size-7))
+		// The key is read in full whatever size is left: if it does not fit,
+		// ErrSizeTooSmall is returned below with the reader and key kept, so
+		// that the next call (with a fresh size budget) resumes this message
+		// instead of dropping it.
+		keyReader := io.Reader(r.r)
 
 		// Read key as raw CBOR
 		if err := cbor.NewDecoder(keyReader).Decode(&r.rkey); err != nil {
